@@ -530,12 +530,25 @@ def shield(ctx: Context, rule: str) -> None:
             ok = isinstance(sh, ast.Constant) and sh.value is True and cands[0][2].name == "__init__"
         rep.ob(rule, fkey("async", init, f"shield:{be}:scope"), ok, where(init, cands[0][1] if cands else None),
                f"{lib}.CancelScope(shield=True) created in the constructor" if ok else f"the {be} shield is not a `{lib}.CancelScope(shield=True)` created in the constructor")
+        from ..norm import UNKNOWN as _U, peval as _pe
+
+        def _active(node: ast.AST) -> bool:
+            """the statement runs when the backend is `be` (every enclosing test evaluated for self._backend == be)"""
+            for test, pol in guards_of(node):
+                v_ = _pe(test, {"self._backend": be})
+                if v_ is _U or bool(v_) != pol:
+                    return False
+            return True
+        if ok and attr:
+            # the same field may serve both backends (one store per branch): under THIS backend it holds this backend's scope
+            others = [st for f2, st in stores.get(attr, []) if st is not cands[0][1] and _active(st)]
+            ok = _active(cands[0][1]) and not others
         for m in ("__enter__", "__exit__"):
             f = c.methods.get(m)
-            calls = _delegations(f, attr, m) if (f is not None and attr) else []
+            calls = [c_ for c_ in (_delegations(f, attr, m) if (f is not None and attr) else []) if _active(c_)]
             okm = len(calls) == 1
             if okm:
-                okm = _backend_only(guard_atoms(guards_of(calls[0])), be)
+                okm = _backend_only(guard_atoms(guards_of(calls[0])), be) or _active(calls[0])
                 if m == "__exit__":
                     okm = okm and [norm(a) for a in calls[0].args] == [a for a in f.param_names() if a != "self"]
             rep.ob(rule, fkey("async", f or init, f"shield:{be}:{m}"), okm, where(f or init, calls[0] if calls else None),
